@@ -45,6 +45,15 @@ def make_pool(seed, n):
                    {'k' * 300: 1}, '\ud800'):
         ops.append({'op': 'encode_table',
                     'v': {'a': 1, 'outer': {'inner': [1, {'p': poison}]}}})
+    # every refusal path of the envelope, explicitly
+    fr0 = wire.method_frame(rnd, refspec.BY_NAME['Queue.Declare'],
+                            allow_refuse=False)
+    d0 = bytes(fr0.data)
+    for bad in (d0[:-1], d0[:9], d0[:7], d0[:3], b'', d0[:-1] + b'\x00',
+                b'\x09' + d0[1:], d0[:7] + b'\xce', b'AMQP', b'AMQP\x00\x00',
+                b'\x08\x00\x00\x00\x00\x00\x00', d0[:3] + b'\xff' * 4 + d0[7:],
+                d0[:7] + b'\x00\x99\x00\x99' + d0[11:]):
+        ops.append({'op': 'decode', 'data': bad})
     # decodes that fail 48 nesting levels down
     for b, _ in list(faults.deep_fault_frames(rnd, 48))[::3]:
         ops.append({'op': 'decode', 'data': b})
@@ -133,10 +142,15 @@ def _summ(obj):
     return [k]
 
 
+KEEP_EXC = None          # a list: raised exception objects are appended
+
+
 def _outcome(fn):
     try:
         v = fn()
     except Exception as e:
+        if KEEP_EXC is not None:
+            KEEP_EXC.append(e)
         return canon.text(['raised', list(canon.exc_form(e))], ordered=True)
     return canon.text(['ok', v], ordered=True)
 
